@@ -35,6 +35,14 @@ def cases(rng, tier):
             else:
                 var = fam + ".o"
             out.append(G.line(op, fmt, var, [n], w))
+        for _ in range(N // 3):
+            # tiny but positive base-rate entries or belief masses (thresholds other than machine epsilon)
+            n = rng.choice([2, 3, 4])
+            w = G.tiny_opinion(rng, fmt, G.rand_opinion(rng, n, rng.choice([4, 8, 16]), rng.choice(["int", "int", "dog", "any"])), n)
+            if rng.random() < 0.4:
+                w = G.tiny_opinion(rng, fmt, w, n)
+            op = rng.choice(["proj", "maxu", "umax", "umax"])
+            out.append(G.line(op, fmt, rng.choice(G.FAMS_1D) + ".o", [n], w))
         for _ in range(N // 4):
             n = rng.choice([2, 3, 4])
             b, u = G.float_simplex(rng, fmt, n)
